@@ -257,3 +257,12 @@ def parse_check_output(text: str):
 def md5_file(path):
     from .world import read_bytes
     return hashlib.md5(read_bytes(path)).hexdigest()
+
+
+CHECKSUM_ALGOS = ("md5", "sha1", "sha256", "sha512", "blake2b")
+
+
+def checksums_of(b: bytes):
+    """The statement says 'the checksum of its bytes' without naming the
+    function: any standard digest of exactly the file's bytes is accepted."""
+    return {hashlib.new(a, b).hexdigest() for a in CHECKSUM_ALGOS}
